@@ -128,11 +128,12 @@ Definition wf_content (ver : bytes) (is_member : bool) (m : list (bytes * json))
             then match state_key with Some (JStr sk) => proper_id 64 sk | _ => false end
             else true)
         && (if bytes_eqb (s_str (bs "membership") (JObj c)) (bs "join") && spec_restricted_joins ver
-            then match assoc_first (bs "join_authorised_via_users_server") c with
-                 | None => true
-                 | Some (JStr u) => proper_id 64 u
-                 | Some _ => false
-                 end
+            then field_ok_str (bs "join_authorised_via_users_server") c
+                 && match assoc_first (bs "join_authorised_via_users_server") c with
+                    | None => true
+                    | Some (JStr u) => proper_id 64 u
+                    | Some _ => false
+                    end
             else true)
       else true
   | _ => false
@@ -160,3 +161,46 @@ Definition wf_event (ver : bytes) (j : json) : bool :=
 (* what the caller's sender-resolution must have answered for a well-formed event: the user ID
    that IS the sender field, hence its server *)
 Definition sender_server (j : json) : option bytes := after_colon (s_str (bs "sender") j).
+
+(* ---------- the authorising user as the AUTH RULES read it ---------- *)
+(* The auth rules decode the member content with encoding/json into MemberContent.  A member is
+   taken for join_authorised_via_users_server when its name equals it up to letter case (ASCII
+   letters; U+017F counts as s, U+212A as k); the occurrences are processed in source order: a
+   string replaces what was read before, null changes nothing, any other value makes the content
+   unparseable (the event can never be authorised).  The empty string names nobody.  The
+   signature check must demand the signature of the server of THAT user: one reading of the
+   event (repair F49). *)
+Fixpoint norm_name (k : bytes) : bytes :=
+  match k with
+  | [] => []
+  | c :: r =>
+      match r with
+      | d :: r2 =>
+          if (c =? 197) && (d =? 191) then 115 :: norm_name r2
+          else match r2 with
+               | e :: r3 => if (c =? 226) && (d =? 132) && (e =? 170) then 107 :: norm_name r3
+                            else lower c :: norm_name r
+               | [] => lower c :: norm_name r
+               end
+      | [] => [lower c]
+      end
+  end.
+
+Definition via_name : bytes := bs "join_authorised_via_users_server".
+Definition via_like (k : bytes) : bool := bytes_eqb (norm_name k) via_name.
+
+Inductive auth_reading := AUnparseable | ANobody | AUser (u : bytes).
+
+Fixpoint auth_authoriser_from (c : list (bytes * json)) (sofar : bytes) : auth_reading :=
+  match c with
+  | [] => match sofar with [] => ANobody | _ => AUser sofar end
+  | (k, v) :: c' =>
+      if via_like k then
+        match v with
+        | JStr u => auth_authoriser_from c' u
+        | JNull => auth_authoriser_from c' sofar
+        | _ => AUnparseable
+        end
+      else auth_authoriser_from c' sofar
+  end.
+Definition auth_authoriser (c : list (bytes * json)) : auth_reading := auth_authoriser_from c [].
